@@ -1,0 +1,12 @@
+//go:build verif
+
+// Contracts for package errors, checked by /verif/govc (comment-only file; compiled only
+// with the build tag "verif", which no build of the application uses).
+package errors
+
+// An AppError keeps its cause (Unwrap returns it and nothing reassigns it), so whatever
+// errors.Is finds in the cause it finds in the wrapper. The second clause is trusted: it is
+// the contract of the standard library's errors.Is with respect to Unwrap.
+//@ func NewAppError
+//@   ensures[errors.new-app] result != nil && fresh(result) && result.Cause == cause && result.Type == errorType && result.Message == message && result.UserMessage == "" && result.Context != nil && fresh(result.Context) && result.Suggestions == nil
+//@   trusted-ensures[errors.wrap-is] cause != nil ==> (forall t error :: errorsIs(cause, t) ==> errorsIs(box(result), t))
